@@ -200,7 +200,7 @@ CHECKS["C14"] = {
         {"pkg": ".", "run": "^TestVerif_C14_", Q: {"timeout": 900}, T: {"timeout": 3400, "shards": 8}},
         {"pkg": _SS, "run": "^TestVerifCtl_C14_", "inst": ["pkg/secretstore/secret_store_messages.go"], Q: {"timeout": 600}, T: {"timeout": 3400, "shards": 8}},
     ],
-    "mandatory_labels": {"all": ["log-then-push", "push-then-log", "push-twice", "near-reference-edge", "tampered", "two-senders", "two-groups", "default-windows", "bitflip-sweep", "insider-forged-push", "stores/push-before-log", "stores/push-after-log", "concurrent/dfs-schedules", "concurrent/interleaved-log-and-push"]},
+    "mandatory_labels": {"all": ["log-then-push", "push-then-log", "push-twice", "near-reference-edge", "tampered", "two-senders", "two-groups", "default-windows", "bitflip-sweep", "insider-forged-push", "stores/push-before-log", "stores/push-after-log", "concurrent/dfs-schedules", "concurrent/interleaved-log-and-push", "same-sender-device-on-several-groups"]},
 }
 
 CHECKS["C05"] = {
